@@ -18,6 +18,7 @@ import DelbModel.Lemmas.Create.Untouched
 * `Create/NewNode.lean` — the node built for a step passes the step's tests (`stepB_new`)
 * `Create/Main.lean` — the loop invariant (`createSteps_selected`)
 * `Create/Untouched.lean` — only nodes with fresh identities are added (`fetchOrCreate_untouched`)
+* this file — the up-front prefix check makes `stepPrefixesBound` derivable (`stepPrefixesBound_of_checked`)
 -/
 namespace Delb.XPath
 open Delb.Edit
@@ -32,8 +33,79 @@ theorem consistentStep_of_in (env : NsEnv) (s : Step) (h : consistentStepIn env 
     ∀ a b, a ∈ stepAttrs s → b ∈ stepAttrs s → a.1 = b.1 → a.2.1 = b.2.1 → a.2.2 = b.2.2 :=
   fun a b ha hb h1 h2 => h a b ha hb (by rw [h1]) h2
 
-theorem fetchOrCreate_selected (root root' : PTree) (n n' : Nat) (env : NsEnv) (ctx : List Nat)
-    (p : Path) (r : XNode) (hp : ∀ s ∈ p.steps, stepPrefixesBound env s = true)
+/-! ## the prefixes `fetch_or_create_by_xpath` checks up front are the ones the query looks at -/
+
+theorem exprPrefixesBound_of_checked (env : NsEnv) : ∀ (e : Expr), exprLocatable e = true →
+    exprNoEmptyPrefix e = true →
+    (∀ t ∈ derivedAttrs e, (!t.1.isEmpty && (Ser.dget env (showS t.1)).isNone) = false) →
+    exprPrefixesBound env e = true
+  | .binop op l r, hl, hne, ha => by
+    simp only [exprNoEmptyPrefix, Bool.and_eq_true] at hne
+    by_cases h1 : op = "and"
+    · subst h1
+      simp only [exprLocatable, beq_self_eq_true, if_true, Bool.and_eq_true] at hl
+      simp only [derivedAttrs, beq_self_eq_true, if_true, List.mem_append] at ha
+      simp only [exprPrefixesBound, Bool.and_eq_true]
+      exact ⟨exprPrefixesBound_of_checked env l hl.1 hne.1 (fun t ht => ha t (.inl ht)),
+        exprPrefixesBound_of_checked env r hl.2 hne.2 (fun t ht => ha t (.inr ht))⟩
+    · by_cases h2 : op = "="
+      · subst h2
+        cases l <;> cases r <;> simp [exprLocatable] at hl
+        · rename_i v pfx n
+          cases pfx with
+          | none => simp [exprPrefixesBound]
+          | some q =>
+            have hq := ha (q, n, v) (by simp [derivedAttrs])
+            have hq' : q.isEmpty = false := by simpa [exprNoEmptyPrefix] using hne.2
+            simp only [hq', Bool.not_false, Bool.true_and] at hq
+            cases hd : Ser.dget env (showS q) <;> simp_all [exprPrefixesBound]
+        · rename_i pfx n v
+          cases pfx with
+          | none => simp [exprPrefixesBound]
+          | some q =>
+            have hq := ha (q, n, v) (by simp [derivedAttrs])
+            have hq' : q.isEmpty = false := by simpa [exprNoEmptyPrefix] using hne.1
+            simp only [hq', Bool.not_false, Bool.true_and] at hq
+            cases hd : Ser.dget env (showS q) <;> simp_all [exprPrefixesBound]
+      · simp [exprLocatable, h1, h2] at hl
+  | .num _, hl, _, _ => by simp [exprLocatable] at hl
+  | .str _, hl, _, _ => by simp [exprLocatable] at hl
+  | .hasAttr _ _, hl, _, _ => by simp [exprLocatable] at hl
+  | .attrVal _ _, hl, _, _ => by simp [exprLocatable] at hl
+  | .func _ _, hl, _, _ => by simp [exprLocatable] at hl
+
+/-- for a locatable step without empty prefixes: when the up-front check finds nothing, every prefix the
+    query looks at is bound -/
+theorem stepPrefixesBound_of_checked (env : NsEnv) (s : Step) (hl : stepLocatable s = true)
+    (hne : stepNoEmptyPrefix s = true) (hu : unboundPrefixes env s = []) : stepPrefixesBound env s = true := by
+  simp only [unboundPrefixes, List.filter_eq_nil_iff, List.mem_append, List.mem_map, Bool.not_eq_true] at hu
+  simp only [stepLocatable, Bool.and_eq_true, List.all_eq_true] at hl
+  simp only [stepNoEmptyPrefix, Bool.and_eq_true, List.all_eq_true] at hne
+  simp only [stepPrefixesBound, Bool.and_eq_true, List.all_eq_true]
+  constructor
+  · cases ht : s.test with
+    | name pfx l =>
+      cases pfx with
+      | none => rfl
+      | some q =>
+        have hq := hu q (.inl (by simp [ht]))
+        have hq' : q.isEmpty = false := by simpa [ht] using hne.1
+        simp only [hq', Bool.not_false, Bool.true_and] at hq
+        cases hd : Ser.dget env (showS q) <;> simp_all [testPrefixBound]
+    | _ => simp [ht, isNameTest] at hl
+  · intro e he
+    apply exprPrefixesBound_of_checked env e (hl.2 e he) (hne.2 e he)
+    intro t hte
+    exact hu t.1 (.inr ⟨t, List.mem_flatMap.2 ⟨e, he, hte⟩, rfl⟩)
+
+theorem flatMap_unboundPrefixes_nil {env : NsEnv} {steps : List Step}
+    (h : steps.flatMap (unboundPrefixes env) = []) : ∀ s ∈ steps, unboundPrefixes env s = [] := by
+  simpa [List.flatMap_eq_nil_iff] using h
+
+/-- the common part: the prefixes need to be bound only when the call gets as far as creating -/
+theorem fetchOrCreate_selected_of (root root' : PTree) (n n' : Nat) (env : NsEnv) (ctx : List Nat)
+    (p : Path) (r : XNode)
+    (hp : p.steps.flatMap (unboundPrefixes env) = [] → ∀ s ∈ p.steps, stepPrefixesBound env s = true)
     (hc : ∀ s ∈ p.steps, consistentStepIn env s)
     (h : fetchOrCreate root n env env ctx [p] = .ok (root', r, n')) :
     evaluate root' env ctx [p] = .ok [r] := by
@@ -45,23 +117,54 @@ theorem fetchOrCreate_selected (root root' : PTree) (n n' : Nat) (env : NsEnv) (
     match l, hE with
     | [], hE =>
       simp only [hE] at h
-      have hall : ∀ s ∈ p.steps, StepOk env s ∧ consistentStepIn env s := by
-        intro s hs
-        simp only [locatable, List.all_eq_true] at hl
-        exact ⟨⟨hl s hs, hp s hs⟩, hc s hs⟩
-      obtain ⟨h1, _, h3⟩ := createSteps_selected env p.steps root n _ root' r n' hall h
-      have hr : r ≠ .doc := by
-        intro hr
-        obtain ⟨e1, e2⟩ := h3 hr
-        simp [evaluate, evalPaths, evalPath, e1, e2, evalSteps] at hE
-      have hcont : ([r] : List XNode).contains .doc = false := by
-        simpa using fun e => hr e.symm
-      simp only [evaluate, evalPaths, evalPath, h1, hcont, Bool.false_eq_true, if_false, addNew,
-        List.contains_nil, List.nil_append]
+      cases hU : p.steps.flatMap (unboundPrefixes env) with
+      | cons q qs => simp [hU] at h
+      | nil =>
+        simp only [hU] at h
+        have hall : ∀ s ∈ p.steps, StepOk env s ∧ consistentStepIn env s := by
+          intro s hs
+          simp only [locatable, List.all_eq_true] at hl
+          exact ⟨⟨hl s hs, hp hU s hs⟩, hc s hs⟩
+        obtain ⟨h1, _, h3⟩ := createSteps_selected env p.steps root n _ root' r n' hall h
+        have hr : r ≠ .doc := by
+          intro hr
+          obtain ⟨e1, e2⟩ := h3 hr
+          simp [evaluate, evalPaths, evalPath, e1, e2, evalSteps] at hE
+        have hcont : ([r] : List XNode).contains .doc = false := by
+          simpa using fun e => hr e.symm
+        simp only [evaluate, evalPaths, evalPath, h1, hcont, Bool.false_eq_true, if_false, addNew,
+          List.contains_nil, List.nil_append]
     | [r0], hE =>
       simp only [hE, Except.ok.injEq, Prod.mk.injEq] at h
       obtain ⟨rfl, rfl, rfl⟩ := h
       exact hE
     | _ :: _ :: _, hE => simp [hE] at h
+
+theorem fetchOrCreate_selected (root root' : PTree) (n n' : Nat) (env : NsEnv) (ctx : List Nat)
+    (p : Path) (r : XNode) (hp : ∀ s ∈ p.steps, stepPrefixesBound env s = true)
+    (hc : ∀ s ∈ p.steps, consistentStepIn env s)
+    (h : fetchOrCreate root n env env ctx [p] = .ok (root', r, n')) :
+    evaluate root' env ctx [p] = .ok [r] :=
+  fetchOrCreate_selected_of root root' n n' env ctx p r (fun _ => hp) hc h
+
+/-- no hypothesis on the bindings: the up-front check supplies it -/
+theorem fetchOrCreate_selected_checked (root root' : PTree) (n n' : Nat) (env : NsEnv) (ctx : List Nat)
+    (p : Path) (r : XNode) (hne : ∀ s ∈ p.steps, stepNoEmptyPrefix s = true)
+    (hc : ∀ s ∈ p.steps, consistentStepIn env s)
+    (h : fetchOrCreate root n env env ctx [p] = .ok (root', r, n')) :
+    evaluate root' env ctx [p] = .ok [r] := by
+  have hl := locatable_of_ok h
+  simp only [locatable, List.all_eq_true] at hl
+  exact fetchOrCreate_selected_of root root' n n' env ctx p r
+    (fun hU s hs => stepPrefixesBound_of_checked env s (hl s hs) (hne s hs)
+      (flatMap_unboundPrefixes_nil hU s hs)) hc h
+
+theorem fetchOrCreate_unbound (root : PTree) (n : Nat) (envQ envC : NsEnv) (ctx : List Nat) (p : Path)
+    (hl : locatable [p] = true) (hq : evaluate root envQ ctx [p] = .ok [])
+    (hu : p.steps.flatMap (unboundPrefixes envC) ≠ []) :
+    ∃ q, fetchOrCreate root n envQ envC ctx [p] = .error (.eval (.unknownPrefix q)) := by
+  cases hU : p.steps.flatMap (unboundPrefixes envC) with
+  | nil => exact absurd hU hu
+  | cons q qs => exact ⟨showS q, by simp [fetchOrCreate, hl, hq, hU]⟩
 
 end Delb.XPath
